@@ -39,6 +39,9 @@ structure Sites where
   const : Mode
   deriving DecidableEq, Repr, Inhabited
 
+/-- all three copy sites copy (the hypothesis of the theorems of Lemmas/AliasC17.lean), as a `Bool` -/
+def Sites.allCopy (S : Sites) : Bool := S.doc.copies && S.step.copies && S.const.copies
+
 /-- sequencing of heap transformers (`none` = raised: the rest is skipped, the heap so far is kept) -/
 def bindR {α β : Type} (r : R α) (k : Heap → α → R β) : R β :=
   match r with
@@ -255,5 +258,17 @@ def hConvertDict (A : Atoms) (S : Sites) (fuel : Nat) (ver : Nat → Int) (ms : 
 def roots : Item → List Nat
   | .ref a => [a]
   | .atom _ => []
+
+/-! ## sample user functions (for `FunctionCall` entries in examples and in the driver) -/
+
+/-- `lambda x, *_: x` — hands back (a reference to) its first argument -/
+def fnIdent (A : Atoms) : Heap → List Item → R Item := fun h args => (h, some (args.headD (.atom A.none)))
+
+/-- `lambda *xs: [*xs]` — builds a new list holding (references to) its arguments -/
+def fnWrap : Heap → List Item → R Item :=
+  fun h args => allocLike h "list" (reindexFrom 0 (args.map fun a => ("", a)))
+
+/-- a function outside the capability discipline: it returns a global object (cell `g`) -/
+def fnGlobal (g : Nat) : Heap → List Item → R Item := fun h _ => (h, some (.ref g))
 
 end Typedpy.AliasC17
